@@ -137,8 +137,22 @@ class ErrorHandling:
 
         elif 1 < len(expected) < 20:
             if self.bad_token is None:
-                # if this is the end of query, just show next expected keywords
-                return list(expected.keys())
+                # if this is the end of query, show next expected keywords:
+                #  those the parser takes after the query (the LALR table can list a token that is rejected right after a reduction)
+                for value, token_name in expected.items():
+                    if value.startswith('['):
+                        suggestions.append(value)
+                        continue
+                    token = Token()
+                    token.type = token_name
+                    token.value = value
+                    token.end = 0
+                    token.index = 0
+                    token.lineno = 0
+                    self.parser.parse(iter(self.tokens + [token]))
+                    if self.parser.error_info['bad_token'] is not token:
+                        suggestions.append(value)
+                return suggestions
 
             # not every suggestion satisfy the end of the query. we have to check if it works
             for value, token_name in expected.items():
